@@ -45,6 +45,9 @@ func Escape(str string, isBytes bool) (string, error) {
 				} else {
 					buf = append(buf, `\t`...)
 				}
+			case '\r':
+				// A raw carriage return would be normalized to a newline when read back.
+				buf = append(buf, `\x0d`...)
 			case '\\':
 				if isBytes {
 					buf = append(buf, `\x5c`...)
